@@ -356,6 +356,7 @@ def run(ctx):
             search(ctx, exe)
     client_layer(ctx)
     tso_layer(ctx)
+    core.init_contract(ctx, ["hazard_pointer", "mpmc_fifo"])  # rt/h_init.c: real init on dirty memory
     core.finish(ctx, extra_assumptions=ASSUME)
 
 
@@ -445,6 +446,8 @@ def corpus(ctx):
 
 
 def replay(ctx, payload):
+    if payload.get("harness") == "h_init":
+        return core.replay_init(ctx, payload)
     if str(payload.get("harness", "")).split("+")[0] == "mpmc":
         from vf.props import C13
         return C13.replay(ctx, payload)
